@@ -478,6 +478,11 @@ func (x *Exec) callByContract(st *State, fr *Frame, fc *FuncContract, ci calleeI
 	if kind == "go" && !fc.Flags["go-sync"] {
 		// a spawned function under contract: its declared frame is applied at the spawn point, its postconditions are
 		// not assumed (it may not have finished); without a declared frame its effects are not modelled
+		if ci.fn != nil && x.prog.touchesChan(ci.fn) {
+			st.havocHeap("ChLen")
+			st.havocHeap("ChClosed")
+			x.noteAbstraction("channel state forgotten at the spawn of " + calleeShort + " (it sends, receives or closes)")
+		}
 		if fc.HasAssigns {
 			x.havocAssigns(st, env, fc)
 			if len(st.pendingRefs) > 0 {
@@ -491,6 +496,12 @@ func (x *Exec) callByContract(st *State, fr *Frame, fc *FuncContract, ci calleeI
 	}
 	old := st.Clone()
 	x.havocAssigns(st, env, fc)
+	if ci.fn != nil && x.prog.touchesChan(ci.fn) {
+		// channel effects cannot be declared in assigns: the callee may have sent, received or closed
+		st.havocHeap("ChLen")
+		st.havocHeap("ChClosed")
+		x.noteAbstraction("channel state forgotten after the call to " + calleeShort + " (it sends, receives or closes)")
+	}
 	var rv Val
 	if sig != nil {
 		rv = st.freshVal(sig.Results(), "ret_"+sanitize(calleeShort))
